@@ -161,8 +161,12 @@ def run_proof(module, timeout=600):
 RE_VIOL = re.compile(r'"(VIOL|DRIFT)\|(-?\d+)\|(-?\d+)\|(\d+)\|([^|"]*)\|([^|"]*)\|([^|"]*)"')
 
 
-def run_trace(module, trace_path, timeout=1200, heap="3g", cfg=None):
+TRACE_TIMEOUT = 1200      # per trace; the thorough tier raises it (plans.run_main)
+
+
+def run_trace(module, trace_path, timeout=None, heap="3g", cfg=None):
     """Validate one ndjson trace. Returns (viols, drifts, n_lines, wall)."""
+    timeout = timeout or TRACE_TIMEOUT
     md = workdir(f"tv_{os.path.basename(trace_path)}_{os.getpid()}")
     cfg = cfg or module.replace(".tla", ".cfg")
     t0 = time.time()
